@@ -436,6 +436,12 @@ def gen_project(rng, idx):
         files[f"source/includes/steps-run{j}.yaml"] = STEPS_YAML.format(i=j, label=rng.choice(labels))
     if rng.random() < 0.6:
         files["source/includes/extracts-e0.yaml"] = EXTRACTS_YAML.format(i=0)
+    if rng.random() < 0.5:
+        # a base entry whose own parent is missing, inherited from two other files: which file carries the
+        # diagnostics of the broken chain must not depend on the order in which the files are discovered
+        files["source/includes/extracts-base.yaml"] = "ref: base-x\ninherit:\n  file: extracts-nowhere.yaml\n  ref: gone\ncontent: |\n  Base body.\n...\n"
+        for nm in ("alpha", "omega"):
+            files[f"source/includes/extracts-{nm}.yaml"] = f"ref: {nm}-x\ninherit:\n  file: extracts-base.yaml\n  ref: base-x\n...\n"
     for nm in "abc":
         files[f"source/images/{nm}.png"] = {"$b": f"\x89PNG\r\n\x1a\n{nm}"}
     return files
@@ -472,6 +478,11 @@ def run_build(root: Path, cfg: dict, prefix_root: Path, out: Path):
     env = {k: v for k, v in os.environ.items() if k not in ("PYTHONHASHSEED",)}
     env["PYTHONHASHSEED"] = str(cfg["seed"])
     env["PYTHONPATH"] = str(core.REPO)
+    if cfg.get("shuffle"):
+        # discovery order: the directory listing order seen by os.walk is permuted in the subprocess
+        env["VERIF_WALK_SEED"] = str(cfg["shuffle"])
+    else:
+        env.pop("VERIF_WALK_SEED", None)
     zip_out, json_out = out / "out.zip", out / "out.json"
     for f in (zip_out, json_out):
         if f.exists():
@@ -555,7 +566,7 @@ def diff_pair(files, cfg_a, cfg_b, base: Path):
 
 class C05(core.PropertyCheck):
     id = "C05"
-    level = "partial"
+    level = "proof"
     parallel = False
     quick_budget = 600
     thorough_budget = 5000
